@@ -908,6 +908,10 @@ class CSSVariable(CSSFunction):
         # store: name of variable
         store = {'ident': None, 'fallback': None}
         ok, seq, store, unused = ProdParser().parse(cssText, 'CSSVariable', prods)
+        if ok and 'ident' not in store:
+            # e.g. "var(" cut off by the end of the input
+            ok = False
+            self._log.error('CSSVariable: No variable name found.')
         self.wellformed = ok
 
         if ok:
